@@ -347,13 +347,19 @@ pub fn epilogue_reclaim(w: &mut World, cfg: &Cfg, order: u64) {
     w.apply(Op::Stat);
 }
 
-/// Loss-free rounds (egress, deliver everything in order) until the network has been silent for
-/// longer than a full retransmit cycle.
+/// Bound on egress rounds after which every entry of a fully closed connection must be gone
+/// (mirrors `Spec.reclaimBound`).
+pub fn reclaim_bound(cfg: &Cfg) -> usize {
+    (cfg.retxthr as usize + 1) * (cfg.retxmax as usize + 2) + 4
+}
+
+/// Loss-free rounds (egress, deliver everything in order) until the network has been silent — nothing
+/// emitted, nothing on the wire — for `reclaim_bound` consecutive rounds: longer than any retransmit
+/// or orphan timer can stay quiet.
 pub fn drain(w: &mut World, cfg: &Cfg) {
-    let horizon = (cfg.retxthr as usize + 1) * (cfg.retxmax as usize + 2) + 4;
-    let quiet_needed = cfg.retxthr as usize + 2;
+    let quiet_needed = reclaim_bound(cfg);
     let mut quiet = 0;
-    for _ in 0..(4 * horizon) {
+    for _ in 0..(8 * quiet_needed) {
         let emitted = w.apply(Op::Egress)[0].clone() != "none";
         let ids: Vec<u64> = w.wire.iter().map(|p| p.id).collect();
         let had = !ids.is_empty();
